@@ -257,10 +257,9 @@ func (a *c09A) sinceAtLeast(name string, hours int64) []Barrier {
 		return e != nil && e.K == ECall && sameFunc(e.Fn, a.since) && len(e.Args) == 1 && FieldIs(a.firstSeenF)(e.Args[0])
 	}
 	ns := hours * 3600 * 1_000_000_000
-	return []Barrier{
-		OnCmp(name, lhs, token.GTR, c09ConstAtLeast(ns), true),
-		OnCmp(name, lhs, token.GEQ, c09ConstAtLeast(ns), true),
-	}
+	return []Barrier{c09CmpBarrier(name, true,
+		c09Cmp{lhs, token.GTR, c09ConstAtLeast(ns)},
+		c09Cmp{lhs, token.GEQ, c09ConstAtLeast(ns)})}
 }
 
 func runC09(c *Ctx) {
@@ -363,10 +362,9 @@ func c09TrustSlice(c *Ctx, a *c09A, R string, fn *ssa.Function, at ssa.Instructi
 			x = strip(x)
 			return x != nil && x.K == EField && x.Var == a.stateF && x.X != nil && x.X.V == ta
 		}
-		bars := []Barrier{
-			OnCmp("ta.State==StateValid", sameTA, token.EQL, c09ConstIs(a.st["StateValid"]), true),
-			OnCmp("ta.State==StateMissing", sameTA, token.EQL, c09ConstIs(a.st["StateMissing"]), true),
-		}
+		bars := []Barrier{c09CmpBarrier("ta.State==StateValid|StateMissing", true,
+			c09Cmp{sameTA, token.EQL, c09ConstIs(a.st["StateValid"])},
+			c09Cmp{sameTA, token.EQL, c09ConstIs(a.st["StateMissing"])})}
 		if ug, tr := c.unguarded(cl, bars, TopLevel(fn)); ug {
 			c.violation(R, akey, instrPos(cl), "key appended to the published set without ta.State==StateValid||StateMissing; path "+tr)
 			bad = true
@@ -663,19 +661,6 @@ func c09R4(c *Ctx, a *c09A) {
 		}
 	}
 	if algF != nil && protoF != nil && pubF != nil && flagsF != nil {
-		var trueRets []ssa.Instruction
-		for _, in := range returnsWhere(sk, 0, nil) {
-			for _, l := range Origins(Desc(in.(*ssa.Return).Results[0]), nil) {
-				if !IsConstBool(false)(l) {
-					trueRets = append(trueRets, in)
-					break
-				}
-			}
-		}
-		for _, f := range []*types.Var{algF, protoF, pubF} {
-			c.c09Guarded(R, sk, "return true needs equal "+f.Name(), trueRets,
-				OnCmp(f.Name()+" equal", onParam(f, 0), token.EQL, onParam(f, 1), true))
-		}
 		revBit := c.P.ConstVal("middleware/resolver.DNSKEYFlagRevoke")
 		xorRev := func(idx int) Pat {
 			return func(e *Expr) bool {
@@ -686,9 +671,25 @@ func c09R4(c *Ctx, a *c09A) {
 				return (onParam(flagsF, idx)(e.X) && c09ConstIs(revBit)(e.Y)) || (onParam(flagsF, idx)(e.Y) && c09ConstIs(revBit)(e.X))
 			}
 		}
-		c.c09Guarded(R, sk, "return true needs Flags == Flags^REVOKE", trueRets,
-			OnCmp("cur.Flags == rev.Flags^REVOKE", onParam(flagsF, 0), token.EQL, xorRev(1), true),
-			OnCmp("cur.Flags^REVOKE == rev.Flags", xorRev(0), token.EQL, onParam(flagsF, 1), true))
+		flagsAtom := c09Atom{Name: "Flags==Flags^REVOKE", Match: func(e *Expr) (bool, bool) {
+			if m, pol := CmpMatch(e, onParam(flagsF, 0), token.EQL, xorRev(1)); m {
+				return m, pol
+			}
+			return CmpMatch(e, xorRev(0), token.EQL, onParam(flagsF, 1))
+		}}
+		atoms := []c09Atom{
+			c09CmpAtom("Algorithm equal", onParam(algF, 0), token.EQL, onParam(algF, 1)),
+			c09CmpAtom("Protocol equal", onParam(protoF, 0), token.EQL, onParam(protoF, 1)),
+			c09CmpAtom("PublicKey equal", onParam(pubF, 0), token.EQL, onParam(pubF, 1)),
+			flagsAtom,
+		}
+		// decided on the evaluated CFG, one obligation per required comparison,
+		// whatever the guard shape (early returns, one && expression, locals, helpers)
+		for _, at := range atoms {
+			name := at.Name
+			c.c09RequireWhen(R, R+"|"+fnKey(sk)+"|return true needs "+name, sk, 0, atoms, true,
+				func(v map[string]bool) bool { return v[name] }, name)
+		}
 	}
 
 	// revocationIsSelfSignedWithWork: keys = {revokedKey} only
